@@ -5,6 +5,7 @@
 #define VF_LEDGER
 #include <nstd/String.hpp>
 #include <nstd/List.hpp>
+#include <nstd/HashSet.hpp>
 #include "engine/histbfs.hpp"
 #include <algorithm>
 #include <string>
@@ -312,6 +313,7 @@ struct H
         {
           vf::Track t_;
           List<String> l;
+          l.append(String("old"));   // the result list is not fresh: split replaces its content
           usize cnt = a.split(l, " ", skip != 0);
           for(List<String>::Iterator it = l.begin(); it != l.end(); ++it) { vf::Untrack u; got.push_back(std::string((const char*)*it, it->length())); }
           vf::Untrack u;
@@ -319,6 +321,22 @@ struct H
         }
         for(size_t j = 0; j < all.size(); ++j) if(!skip || !all[j].empty()) want.push_back(all[j]);
         VF_CHECK(got == want, "C06:String:split", "split('%s', skipEmpty=%d) yields %d tokens, reference %d", ra.c_str(), skip, (int)got.size(), (int)want.size());
+        { // the set form: the distinct tokens
+          std::vector<std::string> gotSet;
+          {
+            vf::Track t_;
+            HashSet<String> hs;
+            hs.append(String("old"));
+            usize cnt = a.split(hs, " ", skip != 0);
+            for(HashSet<String>::Iterator it = hs.begin(); it != hs.end(); ++it) { vf::Untrack u; gotSet.push_back(std::string((const char*)*it, it->length())); }
+            vf::Untrack u;
+            if(cnt != gotSet.size()) gotSet.push_back("<count mismatch>");
+          }
+          std::vector<std::string> wantSet = want;
+          std::sort(wantSet.begin(), wantSet.end()); wantSet.erase(std::unique(wantSet.begin(), wantSet.end()), wantSet.end());
+          std::sort(gotSet.begin(), gotSet.end());
+          VF_CHECK(gotSet == wantSet, "C06:String:split-set", "split into a HashSet ('%s', skipEmpty=%d) yields %d distinct tokens, reference %d", ra.c_str(), skip, (int)gotSet.size(), (int)wantSet.size());
+        }
       }
     }
     { // numeric view
